@@ -162,3 +162,10 @@ From Kardia Require Import C01.SourceTie.
 Theorem C01_source_tie : C01_source_tie_statement.
 Proof. exact C01_source_tie_proof. Qed.
 Print Assumptions C01_source_tie.
+
+(** The decision-critical functions of the anchored code have exactly the decisions the source tie knows about
+    (go2coq manifests, regenerated from /repo on every check; statement in SourceManifest.v). *)
+From Kardia Require Import C01.SourceManifest.
+Theorem C01_source_manifest : C01_source_manifest_statement.
+Proof. exact C01_source_manifest_proof. Qed.
+Print Assumptions C01_source_manifest.
